@@ -182,7 +182,7 @@ def run_case(seed, i, tier):
     if cont == "bz2" and len(data) > 3_000_000:
         cont = "gz"
     if cont == "tar":
-        stored = world.to_tar([("j.journal", data, 1600000000)], rng.choice(("ustar", "gnu", "pax")))
+        stored = world.to_tar([(world.member_path(rng, "j.journal"), data, 1600000000)], rng.choice(("ustar", "gnu", "pax")))
         path = "jr.tar"
     elif cont == "plain":
         stored, path = data, "j.journal"
